@@ -324,3 +324,37 @@ Lemma cached_reverse_refuted :
   run_gops_cached sh_id g0 None [GReverse; edit; GReverse] = [[(0, []); (1, [0])]; [(0, []); (1, [0])]]%N /\
   run_gops sh_id g0 [GReverse; edit; GReverse] = [[(0, []); (1, [0])]; [(0, [1]); (1, [])]]%N.
 Proof. vm_compute. split; reflexivity. Qed.
+
+(** * The checker's answer depends on the graph argument only (seeded change C19-j) *)
+
+(** Two calls on the same graph - whatever differs between two runs of the
+    model is the iteration oracle - give the same verdict class and the same
+    cycle length, and a reported cycle is a closed walk of the caller's own
+    graph: no other call, no earlier call, no package state enters. *)
+Theorem answer_depends_on_graph_only : forall sh1 sh2 g,
+  perm_oracle sh1 -> perm_oracle sh2 -> wf g ->
+  match check_dag sh1 g, check_dag sh2 g with
+  | VOk _, VOk _ => True
+  | VMissing, VMissing => True
+  | VCircle c1, VCircle c2 => length c1 = length c2 /\ closed_walk g c1 /\ closed_walk g c2
+  | _, _ => False
+  end.
+Proof.
+  intros sh1 sh2 g O1 O2 W.
+  pose proof (s_order_irrelevant sh1 sh2 g O1 O2 W) as H.
+  pose proof (s_circle sh1 O1 g W) as C1. pose proof (s_circle sh2 O2 g W) as C2.
+  destruct (check_dag sh1 g) as [| |c1| |], (check_dag sh2 g) as [| |c2| |]; try exact H.
+  split; [exact H|]. split; [apply (C1 c1 eq_refl) | apply (C2 c2 eq_refl)].
+Qed.
+
+(** A queue whose backing store is shared by two searches: the search of the
+    ring 0 -> 1 -> 0 has queued [0; 1]; another search (ring 7 -> 8 -> 7)
+    resets the store and queues [7; 8]; the first search now dequeues 7 - no
+    node of its graph. *)
+Lemma shared_queue_refuted :
+  dequeue_shared [0; 1]%N [7; 8]%N 0 = Some 7%N /\
+  ~ In 7%N (keys [(0, [1]); (1, [0])]%N) /\
+  nth_error [0; 1]%N 0 = Some 0%N.
+Proof.
+  split; [reflexivity|]. split; [|reflexivity]. cbn. intros [H|[H|[]]]; discriminate.
+Qed.
